@@ -3,16 +3,6 @@
 From ND Require Import Tactics.
 Local Open Scope R_scope.
 
-(* index sets: every part of each type *)
-Definition idx_Dual : list (@block unit) := [[]; [tt]].
-Definition idx_Dual2 : list (@block unit) := [[]; [tt]; [tt; tt]].
-Definition idx_Dual3 : list (@block unit) := [[]; [tt]; [tt; tt]; [tt; tt; tt]].
-Definition idx_HyperDual : list (@block nat) := [[]; [1]; [2]; [1; 2]]%nat.
-Definition idx_HHD : list (@block nat) := [[]; [1]; [2]; [3]; [1; 2]; [1; 3]; [2; 3]; [1; 2; 3]]%nat.
-Definition idx_DualVec (i : nat) : list (@block nat) := [[]; [i]].
-Definition idx_Dual2Vec (i j : nat) : list (@block nat) := [[]; [i]; [i; j]].
-Definition idx_HyperDualVec (i j : nat) : list (@block (nat + nat)) := [[]; [inl i]; [inr j]; [inl i; inr j]].
-
 Section Statements.
   Context {L X : Type} (part : X -> @block L -> R).
   Definition mul_is_leibniz (mul : X -> X -> X) (idx : list (@block L)) : Prop :=
